@@ -5,14 +5,12 @@ namespace JsonFast
 
 /-! ## flat objects (`objects=[…]`, used for the composite `after_key`) -/
 
-/-- the dict `parse` builds from the members of a flat object: null members are skipped -/
+/-- the dict `parse` builds from the members of a flat object (members in order, a later duplicate
+    overwrites; `null` is recorded as None since commit 4b176e5) = what full parsing gives -/
 def flatDict (kvs : List (Str × Json)) (d : List (Str × SVal)) : List (Str × SVal) :=
   match kvs with
   | [] => d
-  | (k, v) :: rest =>
-    match v with
-    | .null => flatDict rest d
-    | _ => flatDict rest (dset d k v.toSVal)
+  | (k, v) :: rest => flatDict rest (dset d k v.toSVal)
 
 /-- the single event of a scalar value -/
 def scalarEv : Json → Ev
@@ -121,9 +119,7 @@ theorem step_member_ev (s : PS) (k : Str) (ev : Ev) (hev : ev = Ev.null ∨ ev.i
 omit props lists o in
 theorem scalarEv_ok (d : List (Str × SVal)) (k : Str) (v : Json) (hv : v.isScalar = true) :
     (scalarEv v = Ev.null ∨ (scalarEv v).isPrimitive = true) ∧
-    (if (scalarEv v).isPrimitive then dset d k (scalarEv v).value else d) = (match v with
-      | .null => d
-      | _ => dset d k v.toSVal) := by
+    (if (scalarEv v).isPrimitive then dset d k (scalarEv v).value else d) = dset d k v.toSVal := by
   cases v with
   | null => exact ⟨Or.inl rfl, rfl⟩
   | bool b => exact ⟨Or.inr rfl, rfl⟩
@@ -132,7 +128,7 @@ theorem scalarEv_ok (d : List (Str × SVal)) (k : Str) (v : Json) (hv : v.isScal
   | arr xs => simp [Json.isScalar] at hv
   | obj kvs => simp [Json.isScalar] at hv
 
-/-- through the members: the current object grows by the non-null members, nothing else changes -/
+/-- through the members: the current object grows by the members, nothing else changes -/
 theorem run_members (hop : o ∉ props) (hne : o ≠ []) : ∀ (kvs : List (Str × Json)) (rest : List (Str × Ev)) (s : PS),
     (∀ kv ∈ kvs, kv.2.isScalar = true ∧ (o ++ '.' :: kv.1) ∉ props) → s.inObj = some o → s.pobjs = [] →
     ∃ s', run props lists [o] s (memberEvents o kvs ++ rest) = run props lists [o] s' rest ∧ s'.inObj = some o ∧
@@ -154,7 +150,7 @@ theorem run_members (hop : o ∉ props) (hne : o ≠ []) : ∀ (kvs : List (Str 
     obtain ⟨s', e1, e2, e3, e4⟩ := ih rest _ (fun kv hkv => h kv (by simp [hkv])) b2 (by rw [b1, a1, h2])
     refine ⟨s', e1, e2, e3, ?_⟩
     rw [e4, b3, a3]
-    cases v <;> rfl
+    rfl
 
 theorem step_start (s : PS) (hop : o ∉ props) :
     (step props lists [o] s (o, Ev.startMap)).pobjs = s.pobjs ∧ (step props lists [o] s (o, Ev.startMap)).inObj = some o ∧
@@ -172,7 +168,7 @@ theorem step_end (s : PS) (hop : o ∉ props) :
   simp only [hop, if_false, reduceCtorEq, and_false, false_and, List.mem_singleton, and_self, if_true, and_true]
   rw [h1, h2, h3]
 
-/-- **run level**: a flat object that occurs once is recorded with its non-null members -/
+/-- **run level**: a flat object that occurs once is recorded with its members -/
 theorem run_flat_object (hop : o ∉ props) (hne : o ≠ []) (A B : List (Str × Ev)) (kvs : List (Str × Json))
     (hA : ∀ e ∈ A, e.1 ≠ o) (hB : ∀ e ∈ B, e.1 ≠ o)
     (hk : ∀ kv ∈ kvs, kv.2.isScalar = true ∧ (o ++ '.' :: kv.1) ∉ props) :
@@ -227,7 +223,7 @@ theorem eventsMembers_flat (comps : List Str) (hc : comps ≠ []) : ∀ (kvs : L
     rfl
 
 /-- **parse, flat objects**: for an unambiguous dotted name at which full parsing finds an object with scalar
-    members, `parse(…, objects=[name])` returns the dict of its **non-null** members. -/
+    members, `parse(…, objects=[name])` returns the dict of its members. -/
 theorem parse_object_flat (j : Json) (props lists : List Str) (comps : List Str) (hc : comps ≠ [])
     (h0 : joinDots comps ≠ []) (hna : NoAlias comps j) (hop : joinDots comps ∉ props)
     (kvs : List (Str × Json)) (hget : getPath j comps = some (.obj kvs))
@@ -246,25 +242,16 @@ theorem parse_object_flat (j : Json) (props lists : List Str) (comps : List Str)
   exact pget_finish_obj (props := props) (lists := lists) _
     (run_flat_object props lists (joinDots comps) hop h0 A B kvs hA hB hflat)
 
-/-- without null members the recorded dict is the object full parsing gives (members in order, later
-    duplicates overwrite) -/
-theorem flatDict_no_null : ∀ (kvs : List (Str × Json)) (d : List (Str × SVal)), (∀ kv ∈ kvs, kv.2 ≠ .null) →
+theorem flatDict_eq_foldl : ∀ (kvs : List (Str × Json)) (d : List (Str × SVal)),
     flatDict kvs d = kvs.foldl (fun acc kv => dset acc kv.1 kv.2.toSVal) d := by
   intro kvs
   induction kvs with
-  | nil => intro d _; rfl
+  | nil => intro d; rfl
   | cons a t ih =>
-    intro d h
+    intro d
     obtain ⟨k, v⟩ := a
-    have hv : v ≠ .null := h (k, v) (by simp)
     simp only [flatDict, List.foldl_cons]
-    cases v with
-    | null => exact absurd rfl hv
-    | bool b => exact ih _ (fun kv hkv => h kv (by simp [hkv]))
-    | num n => exact ih _ (fun kv hkv => h kv (by simp [hkv]))
-    | str x => exact ih _ (fun kv hkv => h kv (by simp [hkv]))
-    | arr xs => exact ih _ (fun kv hkv => h kv (by simp [hkv]))
-    | obj o => exact ih _ (fun kv hkv => h kv (by simp [hkv]))
+    exact ih _
 
 /-! ## a checker for `GoodAlong` (used by the non-vacuity examples) -/
 
